@@ -96,3 +96,120 @@ theorem gpt_write_pmbr_type (c : Cfg) (crc : Bytes → Nat) (d : Dev) (t0 : Tabl
   exact (pmbrEnc_shape c (initTable t0 size)).2.1
 
 end Diskfs.Detect
+
+namespace Diskfs.Gpt
+
+/-- `read_write_fresh` of Proofs/GptWhole.lean for the SHAPE of the write list instead of the write list itself:
+    whatever is written before the primary array and header (`pre`) and whatever is written afterwards into
+    bytes 446..511 only (`post`: the protective MBR - or an MBR table written later by mbr.Table.Write) -/
+theorem read_of_shape (c : Cfg) (crc : Bytes → Nat) (hcrc : ∀ b, crc b < two32) (d : Dev)
+    (t0 : Table) (size : Nat) (pre post : List Wr) (arr : Bytes) (ps : List Part)
+    (hf : Fresh t0) (hlss : t0.lss = 512 ∨ t0.lss = 4096) (hg : t0.guid.length = 16)
+    (hwf : ∀ p ∈ t0.parts, allZero p.typ = true ∨ (EntryWF p ∧ p.size < two64))
+    (hmin : 2 * t0.lss + 16384 ≤ size) (hsz : size < two63)
+    (hpost : ∀ w ∈ post, w.off = 446 ∧ w.data.length = 66)
+    (harr : arrEnc c (initTable t0 size) = .ok (arr, ps)) :
+    ∃ t', (read c crc (applyWrs d (pre ++ [⟨2 * t0.lss, arr⟩, ⟨t0.lss, hdrEnc crc (initTable t0 size) true arr⟩] ++ post)) size t0.lss).1 = .ok t' ∧
+      t'.parts = normParts ps 128 := by
+  obtain ⟨il, iph, iac, ies, igu, ipa, ish, ifd, ild⟩ := initTable_fresh t0 size hf hlss
+  generalize hti : initTable t0 size = ti at *
+  have hlpos : 0 < t0.lss := by rcases hlss with h | h <;> omega
+  have hl92 : 92 ≤ ti.lss := by rw [il]; rcases hlss with h | h <;> omega
+  -- the array
+  unfold arrEnc at harr
+  rw [il, iac, ies, ipa] at harr
+  cases hip : initParts t0.lss 128 t0.parts [] with
+  | none => rw [hip] at harr; simp at harr
+  | some ps' =>
+    rw [hip] at harr
+    simp only at harr
+    obtain ⟨b, hb, hpair⟩ := bind_ok_inv _ _ _ harr
+    simp only [Res.pure_eq, Res.ok.injEq, Prod.mk.injEq] at hpair
+    obtain ⟨hb1, hb2⟩ := hpair
+    subst hb1 hb2
+    have hex := initParts_spec t0.lss 128 hlpos t0.parts [] ps' hip hwf (by simp)
+    obtain ⟨harrlen, hdecode⟩ := decodeArr_slots c ps' t0.lss hex b hb
+    -- the device
+    have hsplit : applyWrs d (pre ++ [⟨2 * t0.lss, b⟩, ⟨t0.lss, hdrEnc crc ti true b⟩] ++ post)
+        = applyWrs (applyWr (applyWr (applyWrs d pre) ⟨2 * t0.lss, b⟩) ⟨t0.lss, hdrEnc crc ti true b⟩) post := by
+      simp [applyWrs, List.foldl_append]
+    rw [hsplit]
+    generalize applyWrs d pre = d1
+    have hphlen : (hdrEnc crc ti true b).length = t0.lss := by
+      rw [hdrEnc_length crc ti true b (by rw [igu]; exact hg) hl92, il]
+    have h512 : 512 ≤ t0.lss := by rcases hlss with h | h <;> omega
+    have r1 : readAt (applyWrs (applyWr (applyWr d1 ⟨2 * t0.lss, b⟩) ⟨t0.lss, hdrEnc crc ti true b⟩) post) t0.lss t0.lss
+        = hdrEnc crc ti true b := by
+      rw [readAt_applyWrs_disjoint _ post _ _ (by intro w hw; have := hpost w hw; right; omega)]
+      have := readAt_applyWr_same (applyWr d1 ⟨2 * t0.lss, b⟩) ⟨t0.lss, hdrEnc crc ti true b⟩
+      simpa [hphlen] using this
+    have r2 : readAt (applyWrs (applyWr (applyWr d1 ⟨2 * t0.lss, b⟩) ⟨t0.lss, hdrEnc crc ti true b⟩) post) (2 * t0.lss) 16384 = b := by
+      rw [readAt_applyWrs_disjoint _ post _ _ (by intro w hw; have := hpost w hw; right; omega)]
+      rw [readAt_applyWr_disjoint _ _ _ _ (by right; simp [hphlen]; omega)]
+      have := readAt_applyWr_same d1 ⟨2 * t0.lss, b⟩
+      simpa [harrlen] using this
+    generalize applyWrs (applyWr (applyWr d1 ⟨2 * t0.lss, b⟩) ⟨t0.lss, hdrEnc crc ti true b⟩) post = dev at r1 r2
+    -- the header
+    have hhdr : readHeader crc (hdrEnc crc ti true b) = .ok
+        { myLBA := 1, altLBA := ti.secondaryHeader, firstData := ti.firstData, lastData := ti.lastData, guid := t0.guid,
+          arrLBA := 2, count := 128, entSize := 128, arrCrc := crc b } := by
+      rw [C02aux_hdrEnc_shape]
+      have has : arraySector ti true = 2 := by simp [arraySector, iph, u64, two64]
+      simp only [if_true, iph, has, iac, igu]
+      exact readHeader_hdrBody crc hcrc 1 ti.secondaryHeader ti.firstData ti.lastData t0.guid hg 2 128 0x80 (crc b) _
+        (by decide) ish ifd ild (by decide) (by decide) (by decide) (hcrc b)
+    -- the read
+    unfold read readPrimary
+    have hnot : ¬ size < t0.lss * 2 := by omega
+    simp only [hnot, if_false]
+    rw [sl_ok _ t0.lss (t0.lss * 2) _ (by omega) (by simp)]
+    simp only
+    rw [slice_readAt dev 0 (t0.lss * 2) t0.lss (t0.lss * 2) (by omega) (by omega)]
+    have e1 : t0.lss * 2 - t0.lss = t0.lss := by omega
+    rw [e1, Nat.zero_add, r1, hhdr]
+    simp only
+    generalize hpm : readPMBR _ _ = pm
+    have hle := loadEntries_std c crc dev size t0.lss
+      (tableOfHdr { myLBA := 1, altLBA := ti.secondaryHeader, firstData := ti.firstData, lastData := ti.lastData,
+                    guid := t0.guid, arrLBA := 2, count := 128, entSize := 128, arrCrc := crc b } t0.lss pm)
+      b hlss rfl rfl rfl rfl hmin r2
+    generalize hrl : loadEntries c crc dev size _ t0.lss = rl at hle ⊢
+    obtain ⟨r, al⟩ := rl
+    simp only at hle
+    subst hle
+    refine ⟨_, rfl, ?_⟩
+    simp only [tableOfHdr]; rw [hdecode]
+
+end Diskfs.Gpt
+
+namespace Diskfs.Detect
+open Diskfs.Gpt
+
+theorem mbr_tableEnc_length (ps : List Mbr.Part) : (Mbr.tableEnc ps).length = 66 := by
+  rw [Mbr.tableEnc_eq]
+  simp [Mbr.slotEnc_length]
+
+/-- gpt.Table.Write, then mbr.Table.Write (which rewrites bytes 446..511 and nothing else): gpt.Read still accepts
+    the primary copy - header at LBA 1 and entry array at LBA 2 are untouched - and returns the GPT partitions -/
+theorem gpt_read_after_mbr_write (c : Cfg) (crc : Bytes → Nat) (hcrc : ∀ b, crc b < two32) (d : Dev)
+    (t0 : Table) (size : Nat) (ws : List Wr) (t : Table) (mps : List Mbr.Part)
+    (hf : Fresh t0) (hlss : t0.lss = 512 ∨ t0.lss = 4096) (hg : t0.guid.length = 16)
+    (hwf : ∀ p ∈ t0.parts, allZero p.typ = true ∨ (EntryWF p ∧ p.size < two64))
+    (hmin : 2 * t0.lss + 16384 ≤ size) (hsz : size < two63)
+    (hw : write c crc t0 size = .ok (ws, t)) :
+    ∃ t', (Gpt.read c crc (applyWrs d (ws ++ Mbr.write mps)) size t0.lss).1 = .ok t' ∧ t'.parts = normParts t.parts 128 := by
+  obtain ⟨pre, post, arr, ps, hws, hpost, harr, ht⟩ := write_fresh_shape c crc t0 size ws t hf hlss hsz hw
+  have hpost' : ∀ w ∈ post ++ Mbr.write mps, w.off = 446 ∧ w.data.length = 66 := by
+    intro w hwm
+    rcases List.mem_append.1 hwm with h | h
+    · exact hpost w h
+    · simp only [Mbr.write, List.mem_singleton] at h
+      subst h
+      exact ⟨rfl, mbr_tableEnc_length mps⟩
+  obtain ⟨t', hr, hp⟩ := read_of_shape c crc hcrc d t0 size pre (post ++ Mbr.write mps) arr ps hf hlss hg hwf hmin hsz hpost' harr
+  refine ⟨t', ?_, ?_⟩
+  · rw [hws, List.append_assoc]
+    exact hr
+  · rw [hp, ht]
+
+end Diskfs.Detect
